@@ -11,7 +11,8 @@ to the end.
 
 from dsim import gen, pipe
 from dsim import refmodel as R
-from dsim.actors import read_all, exc_summary
+from dsim.actors import (read_all, read_twice, exc_summary,
+                         header_short_reads)
 from dsim.world import World
 
 ID = 'C10'
@@ -60,6 +61,18 @@ def render(ids, crlf=False, style=None):
 
         if st & 2:
             extra = b', x-pad=' + b'p' * [40, 200, 9000][(st >> 6) % 3]
+
+        if name in ('preamble', 'meta') and st & 4 and not st & 8:
+            # big-endian text with a byte order mark under the generic codec
+            # name
+            body = ('x\n' if name == 'preamble' else '{"k": 1}\n').encode(
+                'utf-16-be' if st & 32 else 'utf-32-be')
+            body = (b'\xfe\xff' if st & 32 else b'\x00\x00\xfe\xff') + body
+            out.append(b'#' + sid.encode() + b': encoding=' +
+                       (b'utf-16' if st & 32 else b'utf-32') +
+                       (b', format=json' if name == 'meta' else b'') +
+                       (b', length=%d' % len(body)) + extra + nl + body)
+            continue
 
         if name == 'diff' and st & 4:
             out.append(b'#' + sid.encode() + b': length=2, type=' +
@@ -134,13 +147,23 @@ def generate(rng, tier, cls):
         prev = sid
 
     style = [rng.below(256) if rng.chance(0.3) else 0 for _ in ids]
+    sx = gen.gen_stream_extras(rng)
+
+    if rng.chance(0.1):
+        # a raw / packet-like stream: short reads inside header lines
+        sx['short_hdr'] = rng.randint(0, 999)
+
+    if rng.chance(0.08):
+        # the same reader object iterated again after a first pass that
+        # failed, finished, or was abandoned early
+        sx['reuse'] = rng.choice([0, 1, 2, 3, 5])
 
     return {'actors': [], 'schedule': [], 'faults': [], 'ids': ids,
             'style': style if any(style) else [],
             'noise': pipe.gen_noise(rng),
             'crlf': rng.chance(0.15),
             'stream': gen.gen_stream(rng)[0],
-            'stream_extras': gen.gen_stream_extras(rng),
+            'stream_extras': sx,
             'block_size': rng.choice([None, None, 1, 9, 97])}
 
 
@@ -205,6 +228,16 @@ def sweep_scenarios(task):
             yield x
 
 
+def stream_extras(scn, data):
+    sx = scn.get('stream_extras')
+    sx = dict(sx) if isinstance(sx, dict) else {}
+
+    if isinstance(sx.get('short_hdr'), int):
+        sx['short_at'] = header_short_reads(data, sx['short_hdr'])
+
+    return sx
+
+
 def execute(scn, L):
     out = pipe.Outcome()
     import re
@@ -219,14 +252,37 @@ def execute(scn, L):
     k = first_illegal(ids)
     pipe.run_noise(scn, L, out)
     w = World(scn, L)
-    recs, end, exc = read_all(w, data, block_size=scn.get('block_size'),
+    sx = stream_extras(scn, data)
+
+    if isinstance(sx.get('reuse'), int):
+        out.probe('reader_object_reused')
+        recs, end, exc = read_twice(w, data,
+                                    block_size=scn.get('block_size'),
+                                    actor='R', abandon=sx['reuse'] or None,
+                                    extras=sx)
+
+        if end == 'raise' and not isinstance(exc, L.BaseDiffXError) and \
+           isinstance(exc, (RuntimeError, StopIteration)):
+            # a reader that refuses to be iterated twice says so; that is
+            # not a verdict on the section order
+            out.discarded = 'reader-not-reusable'
+            out.absorb(w)
+            return out
+    else:
+        recs, end, exc = read_all(
+                              w, data, block_size=scn.get('block_size'),
                               stream=scn.get('stream') if scn.get('stream')
                               in ('sim', 'bytesio', 'buffered') else 'sim',
                               buf=64, actor='R',
                               prefix=(scn.get('stream_extras') or {}).get(
                                   'prefix', 0),
                               late_rewind=bool((scn.get('stream_extras') or
-                                                {}).get('late_rewind')))
+                                                {}).get('late_rewind')),
+                              extras=sx)
+
+    if sx.get('short_at'):
+        out.probe('short_reads_in_headers')
+
     out.absorb(w)
     out.case_key = pipe.scn_digest([ids, bool(scn.get('crlf')),
                                     scn.get('style')])
